@@ -53,6 +53,16 @@ V6Cases == { MkCase("ip", "ipv6-full", V6Full(k, 1, 0, pad, up), c, CanonV6(k, 1
            \cup { MkCase("ip", "ipv6-zero-run-written", V6Full(k, t[1], t[2], pad, FALSE), 2, CanonV6(k, t[1], t[2])) : k \in {0, 3}, t \in { x \in (1..8) \X (1..8) : x[1] + x[2] <= 9 }, pad \in BOOLEAN }
 V6NearMisses == { NearMiss("ip", "ipv6-near-miss", t) : t \in {"1:2:3:4:5:6:7:8:9", "1:2:3:4:5:6:7", "12345::1", "1::2::3", "g::1", ":::", "1:2:3:4:5:6:7:8::", "::1:2:3:4:5:6:7:8"} }
 
+(* addresses written without any decimal digit, in carriers without digits *)
+V6Alpha == {"dead:beef::cafe", "::", "ff::", "fe::ab", "a:b:c:d:e:f:a:b", "::ffff", "abcd::", "FE::AB"}
+V6AlphaCases == { MkCase("ip", "ipv6-no-digit", t, k, t) : t \in V6Alpha, k \in 1..3 }
+(* two addresses in one text, both families in both orders *)
+PairCase(a, b) == LET pre == "from " mid == " to " IN
+  [api |-> "ip", kind |-> "ip-pair", text |-> pre \o a \o mid \o b \o " now", s |-> Len(pre), e |-> Len(pre) + Len(a) - 1, value |-> a,
+   s2 |-> Len(pre) + Len(a) + Len(mid), e2 |-> Len(pre) + Len(a) + Len(mid) + Len(b) - 1, value2 |-> b, complete |-> TRUE]
+PairAddrs == {"10.0.0.1", "192.168.255.254", "fe80::1", "2001:db8:0:1:1:1:1:1", "::ffff"}
+PairCases == { PairCase(a, b) : a \in PairAddrs, b \in PairAddrs }
+
 (* ---- GUID *)
 GuidBodies == {"123e4567-e89b-12d3-a456-426614174000", "00000000-0000-0000-0000-000000000000", "ffffffff-ffff-ffff-ffff-ffffffffffff", "0f8fad5b-d9cb-469f-a165-70867728950e",
                "a1b2c3d4-e5f6-0718-293a-4b5c6d7e8f90", "deadbeef-dead-beef-dead-beefdeadbeef"}
@@ -75,7 +85,7 @@ MentionCases == { MkCase("mention", "mention", "@" \o t, k, "@" \o t) : t \in {"
 Phones == {"425-555-0100", "(425) 555-0100", "+1 425 555 0100", "+44 20 7946 0958", "1-800-555-0199", "425.555.0100", "+86 10 6552 9988", "020 7946 0958", "(206) 555-0123"}
 PhoneCases == { MkCase("phone", "phone", p, k, p) : p \in Phones, k \in {1, 2} }
 
-Cases == V4Cases \cup V4NearMisses \cup V6Cases \cup V6NearMisses \cup GuidCases \cup EmailCases \cup UrlCases \cup HashCases \cup MentionCases \cup PhoneCases
+Cases == V4Cases \cup V4NearMisses \cup V6Cases \cup V6NearMisses \cup V6AlphaCases \cup PairCases \cup GuidCases \cup EmailCases \cup UrlCases \cup HashCases \cup MentionCases \cup PhoneCases
 
 (* ------------------------------------------------------------------ validity and denotation of IP text *)
 HexDigits == {"0", "1", "2", "3", "4", "5", "6", "7", "8", "9", "a", "b", "c", "d", "e", "f", "A", "B", "C", "D", "E", "F"}
@@ -113,6 +123,12 @@ Verdict(c, obs) ==
   IF Sound(c, es) # "ok" THEN Sound(c, es)
   ELSE IF ~c.complete THEN "ok"
   ELSE IF Len(es) = 0 THEN "Recognised: the well-formed expression yields no entity"
+  ELSE IF Has(c, "s2") THEN
+       (IF Len(es) # 2 THEN "Recognised: two addresses in one text do not yield two entities"
+        ELSE IF es[1].s # c.s \/ es[1].e # c.e \/ es[2].s # c.s2 \/ es[2].e # c.e2 THEN "Span: an entity does not cover exactly its address"
+        ELSE IF ~Has(es[1].res, "value") \/ ~Has(es[2].res, "value") THEN "Resolved: no value"
+        ELSE IF IpDenotes(es[1].res.value) # IpDenotes(c.value) \/ IpDenotes(es[2].res.value) # IpDenotes(c.value2) THEN "Value: the resolved value denotes another address"
+        ELSE "ok")
   ELSE IF Len(es) > 1 THEN "Single: more than one entity"
   ELSE LET e == es[1] IN
        IF e.s # c.s \/ e.e # c.e THEN "Span: the entity does not cover exactly the expression"
